@@ -3,6 +3,7 @@ import MJ.Proofs.NumLex
 import MJ.Proofs.NumF
 import MJ.Proofs.NumX
 import MJ.Proofs.NumRound
+import MJ.Proofs.NumOvf
 import MJ.Gen.Tables
 /-!
 # C08 — numeric operators are exact or fail; they never wrap or lose the sign
@@ -1724,6 +1725,70 @@ theorem C08_main_gap_is_open : ¬ NegOf2p127Exact ∧ (NegOf2p127Exact ↔ C08_f
   have hiff : NegOf2p127Exact ↔ C08_full :=
     ⟨fun h => (C08_main h).1, fun h a r ha _ hn => h.2.1 a r ha hn⟩
   exact ⟨fun h => C08_counterexample (hiff.1 h), hiff⟩
+
+
+/-! #### float `+ - * /` are TOTAL: correctly rounded, or the infinity of the right sign exactly from
+`f64::MAX + ulp/2` on
+
+`ovfThreshold = (2^54 - 1) · 2^2044` is `2^1024 - 2^970` in units of `2^-1074`: the midpoint between
+`f64::MAX` and `2^1024`, where the tie goes to the even neighbour, i.e. to infinity
+(`encodeRat_overflow_iff`).  Together with the `float_*_rounded` theorems (whose only hypothesis was
+that the result is finite) every pair of finite operands is covered: subnormal and zero results by
+the rounding theorems, overflow by these. -/
+
+theorem float_add_total (a b : Nat) :
+    (isFinite (fadd a b) = true ↔ (key a + key b).natAbs < ovfThreshold) ∧
+    (isFinite (fadd a b) = false → fadd a b = signedBits (decide (key a + key b < 0)) infMag) ∧
+    (isFinite (fadd a b) = true → ∀ m : Nat,
+      (key a + key b - key (fadd a b)).natAbs ≤ (key a + key b - key m).natAbs ∧
+      ((key a + key b - key (fadd a b)).natAbs = (key a + key b - key m).natAbs →
+        key m ≠ key (fadd a b) → fadd a b % 2 = 0)) :=
+  ⟨(fadd_finite_iff a b).1, (fadd_finite_iff a b).2, fun hfin m => float_add_rounded a b hfin m⟩
+
+theorem float_sub_total (a b : Nat) :
+    (isFinite (fsub a b) = true ↔ (key a - key b).natAbs < ovfThreshold) ∧
+    (isFinite (fsub a b) = false → fsub a b = signedBits (decide (key a - key b < 0)) infMag) ∧
+    (isFinite (fsub a b) = true → ∀ m : Nat,
+      (key a - key b - key (fsub a b)).natAbs ≤ (key a - key b - key m).natAbs ∧
+      ((key a - key b - key (fsub a b)).natAbs = (key a - key b - key m).natAbs →
+        key m ≠ key (fsub a b) → fsub a b % 2 = 0)) := by
+  have h := fadd_finite_iff a (fneg b)
+  rw [key_fneg, ← Int.sub_eq_add_neg] at h
+  exact ⟨h.1, h.2, fun hfin m => float_sub_rounded a b hfin m⟩
+
+theorem float_mul_total (a b : Nat) :
+    (isFinite (fmul a b) = true ↔ scaled a * scaled b < ovfThreshold * scale) ∧
+    (isFinite (fmul a b) = false → fmul a b = signedBits (sign a != sign b) infMag) ∧
+    (isFinite (fmul a b) = true → ∀ m : Nat,
+      (key a * key b - key (fmul a b) * (scale : Int)).natAbs ≤
+        (key a * key b - key m * (scale : Int)).natAbs ∧
+      ((key a * key b - key (fmul a b) * (scale : Int)).natAbs =
+          (key a * key b - key m * (scale : Int)).natAbs →
+        key m ≠ key (fmul a b) → fmul a b % 2 = 0)) :=
+  ⟨(fmul_finite_iff a b).1, (fmul_finite_iff a b).2, fun hfin m => float_mul_rounded a b hfin m⟩
+
+theorem float_div_total (a b : Nat) (hb : scaled b ≠ 0) :
+    (isFinite (fdiv a b) = true ↔ scaled a * scale < ovfThreshold * scaled b) ∧
+    (isFinite (fdiv a b) = false → fdiv a b = signedBits (sign a != sign b) infMag) ∧
+    (isFinite (fdiv a b) = true → ∀ m : Nat,
+      sign (fdiv a b) = (sign a != sign b) ∧
+      dist (scaled a * scale) (scaled (fdiv a b) * scaled b) ≤ dist (scaled a * scale) (scaledOfMag m * scaled b) ∧
+      (dist (scaled a * scale) (scaled (fdiv a b) * scaled b) = dist (scaled a * scale) (scaledOfMag m * scaled b) →
+        scaledOfMag m ≠ scaled (fdiv a b) → fdiv a b % 2 = 0)) :=
+  ⟨(fdiv_finite_iff a b hb).1, (fdiv_finite_iff a b hb).2, fun hfin m => float_div_rounded a b hb hfin m⟩
+
+-- non-vacuity: f64::MAX + f64::MAX and f64::MAX * 2.0 overflow to +inf, -f64::MAX * 2.0 to -inf,
+-- f64::MAX + 2^969 (less than half an ulp) stays f64::MAX, f64::MAX + 2^970 (the tie) is +inf,
+-- 5e-324 / 2.0 underflows to 0 and 5e-324 * 0.5 too (ties to even), both finite
+set_option exponentiation.threshold 3000 in
+set_option maxRecDepth 100000 in
+example : fadd 0x7fefffffffffffff 0x7fefffffffffffff = 0x7ff0000000000000 ∧
+    fmul 0x7fefffffffffffff 0x4000000000000000 = 0x7ff0000000000000 ∧
+    fmul 0xffefffffffffffff 0x4000000000000000 = 0xfff0000000000000 ∧
+    fadd 0x7fefffffffffffff 0x7c80000000000000 = 0x7fefffffffffffff ∧
+    fadd 0x7fefffffffffffff 0x7c90000000000000 = 0x7ff0000000000000 ∧
+    fdiv 0x0000000000000001 0x4000000000000000 = 0 ∧
+    fmul 0x0000000000000001 0x3fe0000000000000 = 0 := by decide
 
 end Session4
 
